@@ -42,7 +42,7 @@ QUIRKS = [0]
 
 def py_oracle(hier: Sequence[Sequence[int]], members: Sequence[Dict[str, Optional[str]]],
               kinds: Optional[Sequence[Dict[str, str]]] = None, generic: Optional[Sequence[bool]] = None,
-              subs: Optional[Sequence[Sequence[bool]]] = None) -> List[Optional[Dict[str, Any]]]:
+              subs: Optional[Sequence[Sequence[bool]]] = None, genfirst: Optional[Sequence[bool]] = None) -> List[Optional[Dict[str, Any]]]:
     """Create the classes one at a time with CPython.  Result per class: None if it has no oracle (derives from
     a rejected class), {'error': True} if Python rejects it, else
     {'mro': [...], 'where': {name: idx}, 'doc': {name: str|None}}.
@@ -58,8 +58,9 @@ def py_oracle(hier: Sequence[Sequence[int]], members: Sequence[Dict[str, Optiona
     try:
         for i, bases in enumerate(hier):
             if any(classes[b] is None for b in bases):
+                # no linearisation exists for a class one of whose ancestors has none: Python could not define it either
                 classes.append(None)
-                res.append(None)
+                res.append({'error': True, 'derived': True})
                 continue
             ns: Dict[str, Any] = {}
             for name, doc in members[i].items():
@@ -79,7 +80,10 @@ def py_oracle(hier: Sequence[Sequence[int]], members: Sequence[Dict[str, Optiona
             for j, b in enumerate(bases):
                 bl.append(classes[b][T] if (subs and subs[i][j]) else classes[b])
             if generic and generic[i]:
-                bl.append(typing.Generic[T])
+                if genfirst and genfirst[i]:
+                    bl.insert(0, typing.Generic[T])
+                else:
+                    bl.append(typing.Generic[T])
             try:
                 c = types.new_class('C%d' % i, tuple(bl), {}, lambda d, ns=ns: d.update(ns))
             except TypeError as e:
@@ -247,6 +251,7 @@ def _st_multi():
         hier: List[List[int]] = []
         modof: List[int] = []
         generic: List[bool] = []
+        genfirst: List[bool] = []
         members: List[Dict[str, Optional[str]]] = []
         kinds: List[Dict[str, str]] = []
         subs: List[List[bool]] = []
@@ -256,6 +261,7 @@ def _st_multi():
             hier.append(list(bases))
             modof.append(draw(st.integers(0, nmod - 1)))
             generic.append(draw(st.integers(0, 3)) == 0)
+            genfirst.append(draw(st.integers(0, 3)) == 0)   # Generic[T] written before the other bases: rejected when one of them is generic itself
             subs.append([generic[b] and draw(st.booleans()) for b in bases])
             d: Dict[str, Optional[str]] = {}
             kd: Dict[str, str] = {}
@@ -266,7 +272,7 @@ def _st_multi():
             members.append(d)
             kinds.append(kd)
         style = [draw(st.integers(0, 3)) for _ in range(n)]
-        return {'kind': 'multi', 'hier': hier, 'modof': modof, 'generic': generic, 'subs': subs, 'members': members, 'kinds': kinds, 'style': style, 'nmod': nmod}
+        return {'kind': 'multi', 'hier': hier, 'modof': modof, 'generic': generic, 'genfirst': genfirst, 'subs': subs, 'members': members, 'kinds': kinds, 'style': style, 'nmod': nmod}
     return t()
 
 
@@ -299,7 +305,10 @@ def to_source_multi(c: Dict[str, Any]) -> Tuple[Dict[str, str], List[str], Dict[
                 ref += '[T]'
             brefs.append(ref)
         if c['generic'][i]:
-            brefs.append('Generic[T]')
+            if c.get('genfirst') and c['genfirst'][i]:
+                brefs.insert(0, 'Generic[T]')
+            else:
+                brefs.append('Generic[T]')
         linenos[i] = ('p.m%d' % m, len(L) + 1)
         L.append('class C%d%s:' % (i, '(' + ', '.join(brefs) + ')' if brefs else ''))
         if not c['members'][i]:
@@ -323,10 +332,13 @@ def to_source_multi(c: Dict[str, Any]) -> Tuple[Dict[str, str], List[str], Dict[
 def check_multi(c: Dict[str, Any]) -> List[Tuple[str, str]]:
     from ..sysutil import files_to_mods
     files, names, linenos = to_source_multi(c)
-    oracle = py_oracle(c['hier'], c['members'], c['kinds'], c['generic'], c['subs'])
+    oracle = py_oracle(c['hier'], c['members'], c['kinds'], c['generic'], c['subs'], c.get('genfirst'))
     s = build(files_to_mods(files))
     out = check_system(s, names, linenos, oracle, 'multi-module hierarchy %s mods %s' % (c['hier'], c['modof']), render_rejected=True)
-    if out and _has_import_cycle(c):
+    if out and any(c['generic'][i] and (c.get('genfirst') or [False] * len(c['hier']))[i] and any(c['subs'][i]) for i in range(len(c['hier']))):
+        # input predicate of F51: 'class C(Generic[T], Base[T])' - typing drops the explicit Generic[T] at run time (__mro_entries__)
+        out = [('generic-before-subscripted-generic-base', msg) for _sig, msg in out]
+    elif out and _has_import_cycle(c):
         # Python could not even import such a package; kept as a separate class of input
         out = [('cyclic-imports:' + sig, msg) for sig, msg in out]
     return out
@@ -406,7 +418,7 @@ def work(item: Dict[str, Any]) -> Acc:
         hyp_run(acc, strat, body6, item['n'], item['seed'])
     else:
         def body(c):
-            orc = py_oracle(c['hier'], c['members'], c['kinds'], c['generic'], c['subs'])
+            orc = py_oracle(c['hier'], c['members'], c['kinds'], c['generic'], c['subs'], c.get('genfirst'))
             classes = ['multi']
             if any(o and o.get('error') for o in orc):
                 classes.append('multi-with-rejected')
